@@ -483,6 +483,13 @@ func mergeBlocks(b0, b1 *SBlock) SBlock {
 	if len(m.NoDef) == 0 {
 		m.NoDef = nil
 	}
+	for _, b := range []*SBlock{b0, b1} {
+		for _, ch := range b.ExtraDefs {
+			if _, declared := m.Declared[ch]; !declared && !containsStr(m.ExtraDefs, ch) {
+				m.ExtraDefs = append(m.ExtraDefs, ch)
+			}
+		}
+	}
 	return m
 }
 
